@@ -1620,3 +1620,103 @@ def check_C08(run):
     run.cov['trusted_base'] = C.GLOBAL_TRUST + ['create/write leave a wall-clock mtime that never equals a source mtime at ns resolution (assumption of the MT tags)',
                                                 'a power loss that reorders data and metadata writes inside the kernel is outside the model (the doer does not fsync); process death and write failures are inside',
                                                 'the recovery clause relies on C01 for "the re-run plans every incomplete file" (here: checked end to end at every crash point)']
+
+
+# ------------------------------------------------------------------ C09
+
+@prop('C09')
+def check_C09(run):
+    from . import l3, l4
+    import shutil, subprocess
+    thorough = run.tier == 'thorough'
+    if not prepare(run, need_cli=True):
+        return
+    C.proofs_step(run, 'C09')
+    rng = run.rng
+    run.cov['rule'] = ('L4 under a watchdog: the CLI with a fault (destination error while source data is in flight, unwritable destination, remote doer aborted at a crash point) x queue occupancy '
+                       '{below, at, above} the channel capacity (capacity override with KB..MB files; thorough: hook-free with sparse files above 100 MiB) x placement (local, fake-ssh remote); '
+                       'oracle = the process ends within the time limit with a non-zero status; L2 query stress: listings where one side has finished long before the other (a spuriously ready select must not block); '
+                       'selstress measures how often the real select_ready reports a receiver with nothing to receive; non-trivial = a fault was injected; distinct by configuration')
+    WATCHDOG = 25
+    sb = l4.Sandbox()
+    try:
+        def mk(name, big_bytes, nfiles=3):
+            base = os.path.join(sb.dir, name); os.makedirs(base)
+            src, dst = os.path.join(base, 'src'), os.path.join(base, 'dst')
+            ents = [('', 'D')] + [(f'data{i}', 'F', l3.content(i, big_bytes), 2 * 10**18) for i in range(nfiles)] + [('zlast', 'F', b'z', 2 * 10**18)]
+            l3.make_tree(src, ents)
+            l3.make_tree(dst, [('', 'D'), ('aaa', 'D'), ('aaa/keep.txt', 'F', b'k', 10**18), ('aaa/seen.txt', 'F', b's', 10**18)])
+            return base, src, dst
+        configs = []
+        for occ, cap, size in (('below', None, 2000), ('at', 30000, 10000 - 13), ('above', 20000, 400000)):
+            for place in ('local', 'remote-dest', 'remote-both'):
+                configs.append(('dest-error-ENOTEMPTY', occ, cap, size, place))
+        configs += [('dest-unwritable', 'above', 20000, 400000, 'local'), ('remote-doer-abort', 'above', 20000, 400000, 'remote-dest'),
+                    ('remote-doer-abort', 'below', None, 2000, 'remote-dest'), ('remote-doer-abort', 'above', 20000, 400000, 'remote-both')]
+        if thorough:
+            configs.append(('dest-error-ENOTEMPTY', 'above-hook-free', None, 150 * 1024 * 1024, 'local'))
+        sb.place_remote('same')
+        for k, (fault, occ, cap, size, place) in enumerate(configs):
+            base, src, dst = mk(f'c{k}', size if occ != 'above-hook-free' else 10, 3)
+            if occ == 'above-hook-free':
+                for i in range(3):
+                    with open(os.path.join(src, f'data{i}'), 'wb') as f:
+                        f.truncate(size)
+            env = {}
+            if cap is not None:
+                env['RJRSSYNC_VERIF_CAPACITY'] = str(cap)
+            args = [('localhost:' if place == 'remote-both' else '') + src + '/', ('localhost:' if place.startswith('remote') else '') + dst + '/']
+            pre = None
+            if fault == 'dest-error-ENOTEMPTY':
+                args += ['--filter', '-aaa/keep.txt']
+            elif fault == 'dest-unwritable':
+                os.chmod(sb.dir, 0o755); os.chmod(base, 0o777); os.chmod(dst, 0o555)
+                subprocess.run(['chmod', '-R', 'a+rX', src])
+                def pre():
+                    os.setgroups([]); os.setgid(65534); os.setuid(65534)
+            elif fault == 'remote-doer-abort':
+                env['RJRSSYNC_VERIF_CRASH_AT'] = str(rng.choice([1, 2, 3, 5]))
+            r = l4.run_cli(args, env=sb.env(env), timeout=WATCHDOG if occ != 'above-hook-free' else 120, preexec=pre)
+            subprocess.run(['pkill', '-f', sb.remote + '/rjrssync/rjrssync'], capture_output=True)
+            run.case(('watchdog', fault, occ, place), True, sample=dict(layer='L4', fault=fault, occupancy=occ, capacity=cap, file_bytes=size, placement=place, rc=r['rc'], wall_s=round(r['wall'], 2), timed_out=r['timeout']))
+            run.count(f'watchdog:{fault}:{occ}:{place}')
+            if r['timeout'] or r['rc'] in (0, None):
+                run.violation(dict(kind='oracle-failed-on-implementation', oracle='the run hands control back within bounded time with a non-zero status', layer='L4',
+                                   fault=fault, occupancy=occ, capacity_override=cap, file_bytes=size, placement=place, args=args, env=env, rc=r['rc'], timed_out=r['timeout'],
+                                   wall_s=round(r['wall'], 1), stderr=r['err'][-600:]))
+                if len(run.violations) >= 2:
+                    break
+            shutil.rmtree(base, ignore_errors=True)
+    finally:
+        subprocess.run(['chmod', '-R', 'u+rwx', sb.dir]); sb.close()
+    # ---- spurious readiness of the real select
+    ans = C.run_harness(['selstress %d' % (200000 if not thorough else 3000000)], timeout=600)[0][0]
+    run.cov['select_ready_stress'] = ans
+    # ---- L2 query stress: one side finishes long before the other
+    scs = []
+    for _ in range(300 if not thorough else 5000):
+        sc = l2.Scenario()
+        sc.beh = 'ooooo'
+        side, other = rng.choice([('S', 'D'), ('D', 'S')])
+        n = rng.randint(30, 120)
+        long_ = [('E', other, f'e{i}', l2.det_file(rng.choice(l2.TIMES), 0)) for i in range(n)] + [('Z', other)]
+        if rng.random() < 0.3:
+            sc.dest_reply = ('R', None, 0, 47); side, other = 'D', 'S'
+            long_ = [('E', 'S', f'e{i}', 'D') for i in range(n)] + [('Z', 'S')]
+            sc.events = long_
+        else:
+            sc.events = [('Z', side)] + long_
+        sc.files = [(e[2], [(b'', False)]) for e in long_ if e[0] == 'E' and e[1] == 'S' and e[3].startswith('F:')]
+        scs.append(sc)
+    res = l2.run_batch(scs)
+    hangs = [r for r in res if r['impl_r'].get('hang') or r['impl_r'].get('res') == 'hang']
+    for r in res:
+        run.case(('query-stress', r['line']), True, sample=None); run.count('query-stress:' + str(r['impl_r'].get('res')))
+    run.cov['traces_validated_against_impl'] += len(res)
+    if hangs:
+        r = hangs[0]
+        run.violation(dict(kind='oracle-failed-on-implementation', oracle='the query phase ends when both listings have ended (the boss must not block on a side that has nothing more to send)', layer='L2',
+                           hangs=len(hangs), of=len(res), select_ready_stress=ans, request_line=r['line'][:3000], impl=r['impl'][:500],
+                           note='timing dependent: the real select reports readiness spuriously now and then; replaying the line usually passes'))
+    run.cov['trusted_base'] = C.GLOBAL_TRUST + ['OS scheduling fairness, TCP time-outs and the ssh child\'s own exit are assumptions; a source file that grows forever is excluded',
+                                                'real thread timing is sampled (watchdog runs); the schedule quantifier is carried by the transition-system theorems']
